@@ -135,7 +135,7 @@ def target_leg(run, rng, har, drv, tier, stats):
 def main(tier, seed, replay=None):
     run = Run(PROP, tier, seed, "proof")
     rng = random.Random(seed)
-    info, problems = proof_gate(PROP, THEOREMS, extra_modules=["Model.All"], thorough=(tier == "thorough"))
+    info, problems = proof_gate_multi([PROP, "C12Depth"], thorough=(tier == "thorough"))
     for p in problems:
         run.tie("proof gate", p)
     drv = build_driver()
